@@ -25,7 +25,9 @@
 //!   T  all leaf sequences of length <= 7 (quick) / 9 (thorough) over the alphabet
 //!      {empty, 00, 01, 32 bytes};
 //!   D  leaf counts 0..=2100 (quick) / 0..=5000 plus 2^k-1, 2^k, 2^k+1 for k <= 17
-//!      (thorough), x 3 content schedules (see binmerkle.rs);
+//!      (thorough), x 3 content schedules (see binmerkle.rs); calculators from scratch
+//!      at every count, the two tree types from scratch for n <= 600 and the sparse
+//!      counts and as one long-lived object checked after every push for all counts;
 //!   R  receipt lists of every length 0..=300 (quick) / 0..=1500 (thorough) x 3
 //!      receipt schedules x 6 ways of getting a root;
 //!   X  executed scripts with k = 0..=40 (quick) / 0..=120 (thorough) log receipts
@@ -49,6 +51,7 @@ use fuel_merkle::binary::{
 use fuel_tx::{
     field::ReceiptsRoot,
     ConsensusParameters,
+    Finalizable,
     Receipt,
     Script,
     ScriptExecutionResult,
@@ -228,7 +231,7 @@ impl Acc {
             Ok(r) if r == *exp => {
                 *self.hist.entry(format!("{name}:{mode}:equal")).or_insert(0) += 1;
                 if n >= 1 {
-                    self.fps.insert(hash64(&(name, mode, exp)));
+                    self.fps.insert(hash64(exp));
                 }
             }
             Ok(r) => self.viol(
@@ -262,9 +265,17 @@ fn tree_case(name: &str, mode: &str, spec: Value) -> Value {
     json!({"kind": "tree", "impl": name, "mode": mode, "leaves": spec})
 }
 
+/// From-scratch trees are rebuilt for every n only up to this count (and at the sparse
+/// counts); beyond it the two tree types are covered by the long-lived incremental
+/// objects, which execute exactly the same push sequence (root(&self) does not mutate).
+const TREE_SCRATCH_DENSE: usize = 600;
+
 /// All from-scratch implementations on one leaf list.
-fn check_scratch(ls: &[Vec<u8>], exp: &H256, spec: &Value, acc: &mut Acc) {
+fn check_scratch(ls: &[Vec<u8>], exp: &H256, spec: &Value, trees: bool, acc: &mut Acc) {
     for name in SCRATCH_IMPLS {
+        if !trees && (name == "inmem" || name == "stored") {
+            continue
+        }
         acc.cmp(name, "scratch", ls.len() as u64, run_scratch(name, ls), exp, || tree_case(name, "scratch", spec.clone()));
     }
 }
@@ -514,7 +525,8 @@ fn check_script_obs(k: u64, ending: &str, reused: bool, obs: Result<ScriptObs, S
 fn explore(ctx: &Ctx) {
     ctx.rule(
         "every leaf list of the spaces T, D, R, X (see header) is given to every listed implementation and to the \
-         reference; a case is non-trivial when the list has >= 1 leaf; distinct = distinct (implementation, mode, reference root)",
+         reference; a case is non-trivial when the list has >= 1 leaf; distinct = distinct non-empty leaf lists (by reference root), \
+         each of which is evaluated by several implementations (see outcome_histogram for per-implementation counts)",
     );
     ctx.assume("sha2 crate and vcore::oracle::{mth, mth_hashed, leaf_hash} are correct");
     ctx.assume("the leaves of a receipts tree are the receipts' canonical encodings `Receipt::to_bytes()` (the encoding itself is C01's subject)");
@@ -548,14 +560,14 @@ fn explore(ctx: &Ctx) {
             let ls: Vec<Vec<u8>> = letters.iter().map(|l| TINY[*l as usize].to_vec()).collect();
             let exp = oracle::mth(&ls);
             let spec = json!({"kind": "seq", "letters": letters});
-            check_scratch(&ls, &exp, &spec, acc);
+            check_scratch(&ls, &exp, &spec, true, acc);
             if idx == 27 {
                 acc.samples.push(json!({"space": "T", "leaves": spec, "rfc6962_mth": hx(&exp), "implementations": SCRATCH_IMPLS}));
             }
         },
         |acc| acc.merge_into(ctx, &mut totals),
     );
-    ctx.set("space_T", json!({"alphabet": ["", "00", "01", "5b*32"], "max_len": tk, "sequences": total}));
+    ctx.set("space_T", json!({"alphabet": ["", "00", "01", "5b*32"], "max_len": tk, "sequences": total, "done_at_s": ctx.elapsed()}));
 
     // ---- D: dense + sparse counts x content schedules
     let dense = ctx.pick(2100u64, 5000u64);
@@ -586,7 +598,7 @@ fn explore(ctx: &Ctx) {
                 let exp = oracle::mth_hashed(&lhs[s as usize][..n as usize]);
                 exps.push((s, n, exp));
                 let spec = json!({"kind": "schedule", "s": s, "n": n});
-                check_scratch(ls, &exp, &spec, acc);
+                check_scratch(ls, &exp, &spec, ls.len() <= TREE_SCRATCH_DENSE || n > dense, acc);
                 if (n == 5 && s == 0) || (n == 1000 && s == 2) {
                     acc.samples.push(json!({"space": "D", "leaves": spec, "rfc6962_mth": hx(&exp), "implementations": SCRATCH_IMPLS}));
                 }
@@ -625,7 +637,8 @@ fn explore(ctx: &Ctx) {
     ctx.set(
         "space_D",
         json!({"dense": format!("0..={dense}"), "sparse": if ctx.thorough() { "2^k-1,2^k,2^k+1 for k<=17" } else { "none (quick)" },
-               "counts": counts.len(), "counts_completed": completed, "max_count_completed": done_max, "schedules": 3, "capped": capped}),
+               "tree_types_rebuilt_from_scratch_for": format!("n <= {TREE_SCRATCH_DENSE} and sparse counts; every n via the incremental objects"),
+               "counts": counts.len(), "counts_completed": completed, "max_count_completed": done_max, "schedules": 3, "capped": capped, "done_at_s": ctx.elapsed()}),
     );
 
     // ---- R: receipt lists
@@ -650,7 +663,7 @@ fn explore(ctx: &Ctx) {
         },
         |acc| acc.merge_into(ctx, &mut totals),
     );
-    ctx.set("space_R", json!({"k": format!("0..={kmax}"), "schedules": 3, "ops": RECEIPT_OPS, "interpreter_op": "k<=64 and multiples of 97"}));
+    ctx.set("space_R", json!({"k": format!("0..={kmax}"), "schedules": 3, "ops": RECEIPT_OPS, "interpreter_op": "k<=64 and multiples of 97", "done_at_s": ctx.elapsed()}));
 
     // ---- X: executed scripts
     let xk = ctx.pick(40u64, 120u64);
@@ -678,7 +691,7 @@ fn explore(ctx: &Ctx) {
         },
         |acc| acc.merge_into(ctx, &mut totals),
     );
-    ctx.set("space_X", json!({"k": format!("0..={xk}"), "endings": ENDINGS, "vm": ["fresh per script", "one VM reused for k = 0,1,2,.. in order"],
+    ctx.set("space_X", json!({"k": format!("0..={xk}"), "endings": ENDINGS, "done_at_s": ctx.elapsed(), "vm": ["fresh per script", "one VM reused for k = 0,1,2,.. in order"],
                               "script": "k x (MOVI r,j+1; LOG r,r,zero,one | LOGD r,zero,zero,r alternating) + ending"}));
     if !totals.is_empty() {
         ctx.set("violation_counts", json!(totals));
